@@ -101,6 +101,7 @@ PROPS = {
     },
     "C13": {
         "run": "^TestC13",
+        "quick_pct": 60,
         "fuzz": [('FuzzC13', 90)],
         "shards": 12,
         "technique": "property-based testing (rapid): generated networks (cyclic with self-loops and parallel links, acyclic, modular) x generated operation histories x flush x operation sequences; lock-step differential against a freshly built instance with bit-equal outputs",
@@ -242,6 +243,7 @@ PROPS = {
     },
     "C16": {
         "run": "^TestC16",
+        "quick_pct": 100,
         "race": True,
         "shards": 12,
         "gomaxprocs": [16, 1, 2, 4],
@@ -258,6 +260,7 @@ PROPS = {
     },
     "C17": {
         "run": "^TestC17",
+        "quick_pct": 150,
         "shards": 12,
         "cross_process": True,
         "history_dependent": True,
